@@ -564,14 +564,24 @@ func extraC07(col *Collector, r *RNG, tier string) {
 			// the master accepts any position here and ends the dump at once with an ERR or EOF
 			opts := defaultOpts()
 			endKind := r.Pickstr("eof", "err", "close")
+			// half of the attempts get as far as the format description before they end: what an attempt learned
+			// from the master must not change what the next one announces and asks for
+			var pre []action
+			if r.Bool() {
+				if ans, err := theDriver.Ask(h.line(posStr(expFile, expOff))); err == nil {
+					for _, pk := range splitPackets(fields(ans)["packets"]) {
+						pre = append(pre, action{kind: "send", data: pk})
+					}
+				}
+			}
 			streamMuUnlockedOnDump := func(sc *simConn, req dumpReq) []action {
 				switch endKind {
 				case "err":
-					return []action{{kind: "err", code: 1236, msg: "stop"}}
+					return append(pre, action{kind: "err", code: 1236, msg: "stop"})
 				case "close":
-					return []action{{kind: "close"}}
+					return append(pre, action{kind: "close"})
 				}
-				return []action{{kind: "eof"}}
+				return append(pre, action{kind: "eof"})
 			}
 			res := runAttemptCustom(s, m, h, mp, opts, streamMuUnlockedOnDump)
 			seen = append(seen, fmt.Sprintf("queries=%q dumps=%d", res.queries, len(res.dumps)))
